@@ -335,9 +335,10 @@ def mon_c01(ix: Index):
                     elif e["kind"] == "ret" and st != "SUCCEEDED":
                         out.append(V("C01", "C01/failed-op-returned-value/%s" % e.get("opkind"),
                                      "%s was %s at invocation start but returned a value" % (e["path"], st), e["i"]))
-                    elif e["kind"] == "exc" and st == "SUCCEEDED" and _is_final_error(e):
-                        out.append(V("C01", "C01/succeeded-op-raised/%s" % e.get("opkind"),
-                                     "%s was SUCCEEDED at invocation start but raised %s" % (e["path"], e["cls"]), e["i"]))
+                    elif e["kind"] == "exc" and st == "SUCCEEDED" and "InvocationError" not in (e.get("mro") or []) and (e.get("mro") or ["?"])[0] != "BaseException" \
+                            and "BaseException" in (e.get("mro") or []) and "Exception" in (e.get("mro") or []):
+                        out.append(V("C01", "C01/succeeded-op-raised/%s/%s" % (e.get("opkind"), e["cls"]),
+                                     "%s was SUCCEEDED at invocation start but raised %s: %s" % (e["path"], e["cls"], str(e.get("msg"))[:80]), e["i"]))
     ix.r.setdefault("stats", {})["c01_entries_checked"] = n_checked
     return out
 
@@ -736,6 +737,10 @@ def mon_c17(ix: Index):  # noqa: C901, PLR0912
             expect_silent = pos < last_done
             if not expect_silent:
                 judged_audible = pos > last_known
+                if not judged_audible and c.get("where") == "step" and pos > last_done:
+                    # a log call inside a step attempt that has never run before (new step, or a retry attempt whose timer fired)
+                    st0 = start["statuses"].get(ix.path2id.get(path))
+                    judged_audible = st0 in (None, "READY")
                 if not judged_audible:
                     n -= 1
                     continue
@@ -750,17 +755,26 @@ def mon_c17(ix: Index):  # noqa: C901, PLR0912
                 # classify by what kind of completed history exists
                 kinds = set()
                 for _pos, p in term_pos:
-                    nd = ix.nodes.get(p.split("@")[0])
-                    if "@" in p or (nd is None):
-                        kinds.add("inner-op-of-completed-context")
-                    elif ctx_path(p) is not None:
-                        kinds.add("inner-op-of-completed-context")
+                    # inner operations of a context that was itself completed at invocation start are never visited on replay
+                    a = ctx_path(p)
+                    while a is not None:
+                        if start["statuses"].get(ix.path2id.get(a)) in TERMINAL:
+                            kinds.add("inner-op-of-completed-context")
+                            break
+                        a = ctx_path(a)
                     if start["statuses"].get(ix.path2id.get(p)) == "FAILED":
                         kinds.add("failed-op-caught")
                 # a failure recorded and caught earlier in this very invocation leaves the same unvisited failed operation
                 if len(start["statuses"]) > 1 and any(x["kind"] == "caught" and x["i"] < c["i"] for x in evs):
                     kinds.add("failed-op-caught")
-                cause = "+".join(sorted(kinds)) or ("first-invocation" if how == "first-invocation" else "flat-history")
+                cause = "+".join(sorted(kinds))
+                if not cause:
+                    if how == "first-invocation":
+                        cause = "first-invocation"
+                    elif not term_pos:
+                        cause = "resumed-history-without-completed-operation"
+                    else:
+                        cause = "flat-history"
                 out.append(V("C17", "C17/new-log-suppressed/%s" % cause,
                              "invocation %d: log %s (position %d) is past the last completed operation (%s at %d) yet nothing was emitted" % (inv, c["tag"], pos, last_done_path, last_done), c["i"]))
             if emitted is not None:
@@ -844,6 +858,13 @@ def mon_c18(ix: Index):  # noqa: C901, PLR0912
                         out.append(V("C18", "C18/failed-without-error-or-execution-record", str(v)[:120], e["i"]))
                 elif not isinstance(err, dict) or not (set(err) <= {"ErrorMessage", "ErrorType", "ErrorData", "StackTrace"}):
                     out.append(V("C18", "C18/failed-error-object-malformed", str(err)[:120], e["i"]))
+                else:
+                    for fld in ("ErrorMessage", "ErrorType", "ErrorData"):
+                        if err.get(fld) is not None and not isinstance(err[fld], str):
+                            out.append(V("C18", "C18/failed-error-object-malformed/%s-not-a-string" % fld, "%s=%r" % (fld, err[fld]), e["i"]))
+                    st_ = err.get("StackTrace")
+                    if st_ is not None and not (isinstance(st_, list) and all(isinstance(x, str) for x in st_)):
+                        out.append(V("C18", "C18/failed-error-object-malformed/StackTrace-not-a-list-of-strings", "%r" % (st_,), e["i"]))
             elif "Result" in v or "Error" in v:
                 out.append(V("C18", "C18/pending-with-payload", str(v)[:120], e["i"]))
         else:
@@ -861,6 +882,8 @@ def mon_c18(ix: Index):  # noqa: C901, PLR0912
         h = next((x for x in ix.trace if x["kind"] == "hang"), {})
         why = "base-exception-in-branch" if any(x["kind"] == "fn_exit" and str(x.get("outcome", "")).startswith("raise:") and x["outcome"].split(":")[1] in ("SystemExit", "KeyboardInterrupt", "BackgroundThreadError") and "/b" in x["path"] for x in ix.trace) else "other"
         if h.get("verdict") == "hang":
+            if why == "other" and any(x["kind"] == "api" and x.get("op") == "get_state" and x.get("fault") for x in ix.trace):
+                why = "page-fetch-failed"
             out.append(V("C18", "C18/invocation-never-ends/%s" % why, "invocation hung: every thread parked, no API call in flight"))
     if expect and ends:
         # the expectation is about the invocation in which the behaviour occurs: the one hit by the injected fault,
